@@ -14,6 +14,13 @@ package checks
 // oracle only ever compares the cursor for equality with its value before the
 // run; before a faulted run the monitor plants a fixed sentinel cursor (2021),
 // so "did not advance" cannot be confused with "advanced within the same second".
+//
+// Timestamp granularity (GitLab: milliseconds, git-bug operations and the cursor:
+// seconds): the "burst" trackers (Params.Burst) stay on one time line in 2020 and
+// grow within the very second of the last imported event. There the monitor plants,
+// before every round that goes by the cursor, the cursor core.Bridge computes for a
+// run at the tracker's present time (second of the tracker's clock + skew - 5 s);
+// the wall clock is still only used by the importer itself, never by an oracle.
 
 import (
 	"context"
@@ -156,11 +163,23 @@ func c16Digested(d c16Dump) []c16Compiled {
 }
 
 type c16Bug struct {
-	Id       string
-	IID      string
-	Ops      []c16Op
+	Id  string
+	IID string
+	// Ops: the imported operations (authored by an identity that carries a gitlab-id), in order.
+	Ops []c16Op
+	// Local: the operations a local user added to the bug (c16LocalOps); not the importer's business.
+	Local []c16Op
+	// Compiled: the compiled bug without what the local operations contributed.
 	Compiled c16Compiled
 }
+
+// the local user of c16LocalOps, as rendered by c16AuthorOf
+const (
+	c16LocalLogin  = "c16local"
+	c16LocalName   = "C16 Local User"
+	c16LocalAuthor = "local:" + c16LocalLogin + "/" + c16LocalName
+	c16LocalLabel  = "c16-local-triage" // no tracker uses this label name
+)
 
 type c16Dump struct {
 	Bugs       []c16Bug
@@ -245,10 +264,19 @@ func c16DumpRepo(dir string, kr repository.Keyring) (d c16Dump) {
 		if err := b.Validate(); err != nil {
 			d.Invalid = append(d.Invalid, "bug: "+err.Error())
 		}
+		localLabels := map[string]bool{}
 		for _, o := range b.Operations() {
 			ro := c16RenderOp(o)
 			if err := o.Validate(); err != nil {
 				d.Invalid = append(d.Invalid, ro.Class+": "+err.Error())
+			}
+			if ro.Author == c16LocalAuthor {
+				// the local user's comments and labels (names no tracker uses) are left out below
+				cb.Local = append(cb.Local, ro)
+				for _, l := range ro.Added {
+					localLabels[l] = true
+				}
+				continue
 			}
 			cb.Ops = append(cb.Ops, ro)
 		}
@@ -256,11 +284,15 @@ func c16DumpRepo(dir string, kr repository.Keyring) (d c16Dump) {
 		cb.IID, _ = snap.GetCreateMetadata("gitlab-id")
 		cp := c16Compiled{IID: cb.IID, Title: snap.Title, Status: snap.Status.String(), Author: c16AuthorOf(snap.Author)}
 		for _, l := range snap.Labels {
-			cp.Labels = append(cp.Labels, string(l))
+			if !localLabels[string(l)] {
+				cp.Labels = append(cp.Labels, string(l))
+			}
 		}
 		sort.Strings(cp.Labels)
 		for _, c := range snap.Comments {
-			cp.Comments = append(cp.Comments, c16Comment{Author: c16AuthorOf(c.Author), Message: c.Message})
+			if a := c16AuthorOf(c.Author); a != c16LocalAuthor {
+				cp.Comments = append(cp.Comments, c16Comment{Author: a, Message: c.Message})
+			}
 		}
 		cb.Compiled = cp
 		d.Bugs = append(d.Bugs, cb)
@@ -281,7 +313,9 @@ func c16DumpRepo(dir string, kr repository.Keyring) (d c16Dump) {
 		if err := se.Entity.Validate(); err != nil {
 			d.Invalid = append(d.Invalid, "identity: "+err.Error())
 		}
-		d.Identities = append(d.Identities, se.Entity.Id().String()+" "+c16AuthorOf(se.Entity))
+		if a := c16AuthorOf(se.Entity); a != c16LocalAuthor {
+			d.Identities = append(d.Identities, se.Entity.Id().String()+" "+a)
+		}
 	}
 	sort.Strings(d.Identities)
 	return
@@ -341,6 +375,65 @@ func (cr *c16Repo) plantCursor(t time.Time) error {
 	}
 	defer rep.Repo.Close()
 	return rep.Repo.LocalConfig().StoreTimestamp(c16CursorKey, t)
+}
+
+// c16LocalOps: a local user works on imported bugs between two import rounds: a comment and a
+// label on each bug of iids (git-bug's own API, operation time = unix, the tracker's time). Returns
+// the number of operations added.
+func (cr *c16Repo) localOps(iids []string, unix int64) (int, error) {
+	rep, err := world.OpenRepo(cr.dir, cr.kr, bug.ClockLoader)
+	if err != nil {
+		return 0, err
+	}
+	c, err := cache.NewRepoCacheNoEvents(rep.Repo)
+	if err != nil {
+		return 0, err
+	}
+	defer c.Close()
+	var me *cache.IdentityCache
+	for _, id := range c.Identities().AllIds() {
+		i, err := c.Identities().Resolve(id)
+		if err == nil && i.Login() == c16LocalLogin {
+			me = i
+		}
+	}
+	if me == nil {
+		if me, err = c.Identities().NewRaw(c16LocalName, "local@example.com", c16LocalLogin, "", nil, nil); err != nil {
+			return 0, err
+		}
+	}
+	want := map[string]bool{}
+	for _, iid := range iids {
+		want[iid] = true
+	}
+	n := 0
+	for _, id := range c.Bugs().AllIds() {
+		b, err := c.Bugs().Resolve(id)
+		if err != nil {
+			return n, err
+		}
+		if iid, _ := b.Snapshot().GetCreateMetadata("gitlab-id"); !want[iid] {
+			continue
+		}
+		if _, _, err := b.AddCommentRaw(me, unix, "local note, not for the tracker", nil, nil); err != nil {
+			return n, err
+		}
+		if _, err := b.ForceChangeLabelsRaw(me, unix, []string{c16LocalLabel}, nil, nil); err != nil {
+			return n, err
+		}
+		if err := b.Commit(); err != nil {
+			return n, err
+		}
+		n += 2
+	}
+	return n, nil
+}
+
+// c16TrackerCursor is the cursor the bridge stores when an error-free import runs at the tracker's
+// present time: start of the run minus 5 s, in whole seconds; the importer's clock is skew (0..5)
+// seconds ahead of the tracker's.
+func c16TrackerCursor(t *gitlabsim.Tracker, p gitlabsim.Params) time.Time {
+	return t.Now().Truncate(time.Second).Add(time.Duration(p.CursorSkew-5) * time.Second)
 }
 
 type c16Round struct {
@@ -888,6 +981,17 @@ func c16OpsBrief(b c16Bug) string {
 	return s
 }
 
+// Timestamp classes of an event the importer left out although it is new.
+const (
+	// the event is not later, in whole seconds, than the last operation imported before
+	c16SameSecond = ":event-within-the-second-of-the-last-imported-operation"
+	// the event is not later than an operation a local user added to the bug
+	c16BeforeLocalOp = ":event-not-later-than-a-local-operation"
+)
+
+// c16RestSameSecond: what a failed run left of the issue ends in the second of the issue's last update.
+const c16RestSameSecond = ":rest-within-the-second-of-the-last-stored-operation"
+
 // c16Delta: d4 was produced by importing generation gen into the repository that held d3.
 // Exactly the new events must have been created.
 func c16Delta(res *c16Result, t *gitlabsim.Tracker, gen int, a, b c16Round) {
@@ -910,9 +1014,13 @@ func c16Delta(res *c16Result, t *gitlabsim.Tracker, gen int, a, b c16Round) {
 		if is.Gen == gen {
 			expected[key{"create", iid}]++
 		}
+		when := map[key]time.Time{}
 		for _, n := range is.Notes {
 			id := strconv.Itoa(n.ID)
 			if n.Gen == gen {
+				for _, cl := range []string{"comment", "title", "status"} {
+					when[key{cl, id}] = n.CreatedAt
+				}
 				switch {
 				case !n.System:
 					expected[key{"comment", id}]++
@@ -933,11 +1041,13 @@ func c16Delta(res *c16Result, t *gitlabsim.Tracker, gen int, a, b c16Round) {
 		for _, e := range is.LabelEvents {
 			if e.Gen == gen {
 				expected[key{"label", strconv.Itoa(e.ID)}]++
+				when[key{"label", strconv.Itoa(e.ID)}] = e.CreatedAt
 			}
 		}
 		for _, e := range is.StateEvents {
 			if e.Gen == gen {
 				expected[key{"status", strconv.Itoa(e.ID)}]++
+				when[key{"status", strconv.Itoa(e.ID)}] = e.CreatedAt
 			}
 		}
 		var nb *c16Bug
@@ -955,9 +1065,25 @@ func c16Delta(res *c16Result, t *gitlabsim.Tracker, gen int, a, b c16Round) {
 			res.find("reimport-rewrites-history"+sfx, "%s -> %s: issue iid=%s went from %d to %d operations", a.Name, b.Name, iid, len(old.Ops), len(nb.Ops))
 			continue
 		}
+		// the time (in seconds, as operations carry it) of what the repository held before this round
+		lastImported, lastLocal := int64(-1), int64(-1)
+		if len(old.Ops) > 0 {
+			lastImported = old.Ops[len(old.Ops)-1].Unix
+		}
+		for _, o := range nb.Local {
+			if o.Unix > lastLocal {
+				lastLocal = o.Unix
+			}
+		}
+		if len(nb.Local) > 0 && len(expected) > 0 {
+			res.count("bugs_with_local_operations_and_new_tracker_events", 1)
+		}
 		edits := 0
 		for _, o := range nb.Ops[len(old.Ops):] {
 			res.count("new_ops_after_growth/"+o.Class, 1)
+			if o.Unix == lastImported {
+				res.count("new_ops_within_the_second_of_the_last_imported_operation", 1)
+			}
 			k := key{o.Class, o.GitlabID}
 			switch {
 			case o.Class == "comment-edit":
@@ -988,30 +1114,42 @@ func c16Delta(res *c16Result, t *gitlabsim.Tracker, gen int, a, b c16Round) {
 				if k.class == "label" {
 					cause = c16LabelCause(is)
 				}
+				// timestamp classes: git-bug's operations carry whole seconds
+				if w, ok := when[k]; ok {
+					switch {
+					case w.Unix() <= lastImported:
+						cause += c16SameSecond
+					case w.Unix() <= lastLocal:
+						cause += c16BeforeLocalOp
+					}
+				}
 				res.find("incremental-missing-op:"+c16DupKey[k.class]+sfx+cause, "%s -> %s after the tracker grew: issue iid=%s: no %s operation for new tracker event id=%s; ops=%s", a.Name, b.Name, iid, k.class, k.id, c16OpsBrief(*nb))
 			}
 		}
 	}
 }
 
-// c16SameCompiled compares two repositories bug by bug (by issue iid).
-func c16SameCompiled(res *c16Result, t *gitlabsim.Tracker, keyPrefix, what string, a, b c16Round) bool {
+// c16CompiledByIID: the compiled bugs of a round (comment texts digested) by issue iid.
+func c16CompiledByIID(rd c16Round) map[string]c16Compiled {
+	m := map[string]c16Compiled{}
+	l := rd.Ref
+	if l == nil {
+		l = c16Digested(rd.Dump)
+	}
+	for _, x := range l {
+		if _, dup := m[x.IID]; !dup {
+			m[x.IID] = x
+		}
+	}
+	return m
+}
+
+// c16SameCompiled compares two repositories bug by bug (by issue iid). cause (may be nil) names
+// the input class a difference on the issue is attributed to.
+func c16SameCompiled(res *c16Result, t *gitlabsim.Tracker, keyPrefix, what string, a, b c16Round, cause func(iid string) string) bool {
 	res.count("compiled_comparisons", 1)
 	same := true
-	idx := func(rd c16Round) map[string]c16Compiled {
-		m := map[string]c16Compiled{}
-		l := rd.Ref
-		if l == nil {
-			l = c16Digested(rd.Dump)
-		}
-		for _, x := range l {
-			if _, dup := m[x.IID]; !dup {
-				m[x.IID] = x
-			}
-		}
-		return m
-	}
-	ma, mb := idx(a), idx(b)
+	ma, mb := c16CompiledByIID(a), c16CompiledByIID(b)
 	iids := map[string]bool{}
 	for k := range ma {
 		iids[k] = true
@@ -1028,6 +1166,9 @@ func c16SameCompiled(res *c16Result, t *gitlabsim.Tracker, keyPrefix, what strin
 		x, okx := ma[iid]
 		y, oky := mb[iid]
 		sfx := c16IssueSuffix(t, iid)
+		if cause != nil {
+			sfx += cause(iid)
+		}
 		if !okx || !oky {
 			same = false
 			k := keyPrefix + ":bug-set"
@@ -1096,6 +1237,12 @@ func c16NormaliseKeys(res *c16Result) {
 		switch {
 		case strings.Contains(f.Key, ":colliding-ids"):
 			nk = "colliding-ids"
+		case strings.Contains(f.Key, ":diff-markers-in-title"):
+			nk = "title-change-note-misparsed"
+		case strings.Contains(f.Key, c16SameSecond), strings.Contains(f.Key, c16BeforeLocalOp), strings.Contains(f.Key, c16RestSameSecond):
+			// its own class (timestamp granularity): an event that is left out because of its time
+			// is not attributed to the control characters its text happens to hold
+			f.Key = strings.Replace(f.Key, ":control-chars-in-title-change", "", 1)
 		case strings.Contains(f.Key, c16OnlyC1):
 			// its own input class: the key already names it
 		case strings.Contains(f.Key, "title-has-unsafe-characters"):
@@ -1149,15 +1296,37 @@ func c16RunCase(c c16Case) (res c16Result) {
 		if A == nil {
 			return
 		}
+		// Burst trackers stay on one time line (no jump to 2100): before every round that goes by the
+		// cursor the monitor plants the cursor the bridge would have stored had the previous import
+		// run at the tracker's time (the wall-clock cursor the importer stored itself is later than
+		// everything the tracker holds).
+		burst := c.Params.Burst
+		plant := func(at time.Time) bool {
+			if !burst {
+				return true
+			}
+			if err := A.plantCursor(at); err != nil {
+				res.Inconclusive = "cannot plant the cursor: " + err.Error()
+				return false
+			}
+			return true
+		}
+		c1 := c16TrackerCursor(t, c.Params)
 		r1 := A.round("r1:first-import", false, nil)
 		res.R["first"] = r1.Log.Identities
 		res.Ref = map[string][]c16Compiled{"first": c16Digested(r1.Dump)}
 		c16CheckRound(&res, r1, "", "")
 		c16CleanRunErrors(&res, t, r1, "r1: first import of a healthy tracker")
 		c16GroundTruth(&res, t, r1)
+		if !plant(c1) {
+			return
+		}
 		r2 := A.round("r2:re-import(cursor)", false, nil)
 		c16CheckRound(&res, r2, "", "")
 		c16Idempotent(&res, r1, r2, "")
+		if burst {
+			c16ListedAtCursor(&res, t, r2, c1)
+		}
 		r3 := A.round("r3:re-import(from zero)", true, nil)
 		c16CheckRound(&res, r3, "", "")
 		c16Idempotent(&res, r2, r3, c16AnyCollision(t))
@@ -1168,6 +1337,20 @@ func c16RunCase(c c16Case) (res c16Result) {
 			res.count("tracker_growth/"+k, v)
 		}
 		c16CountC1Texts(&res, t)
+		if burst && len(r1.Errors) == 0 {
+			// a local user works on three imported bugs before the next import: one whose issue got
+			// new events within the second of its last imported event, one whose issue got later
+			// events, one whose issue did not move (each as far as the tracker has one)
+			n, err := A.localOps(c16LocalTargets(t), t.Now().Unix())
+			if err != nil {
+				res.Inconclusive = "cannot add the local operations: " + err.Error()
+				return
+			}
+			res.count("local_operations_added_between_rounds", n)
+		}
+		if !plant(c1) {
+			return
+		}
 		r4 := A.round("r4:import-after-growth", false, nil)
 		res.R["grow"] = r4.Log.Identities
 		res.Ref["grow"] = c16Digested(r4.Dump)
@@ -1175,6 +1358,12 @@ func c16RunCase(c c16Case) (res c16Result) {
 		c16CleanRunErrors(&res, t, r4, "r4: import after growth")
 		c16Delta(&res, t, 1, r3, r4)
 		c16GroundTruth(&res, t, r4)
+		if burst {
+			c16ListedAtCursor(&res, t, r4, c1)
+		}
+		if !plant(c16TrackerCursor(t, c.Params)) {
+			return
+		}
 		r5 := A.round("r5:re-import(cursor, grown issues listed again)", false, nil)
 		c16CheckRound(&res, r5, "", "")
 		c16Idempotent(&res, r4, r5, c16AnyCollision(t))
@@ -1191,7 +1380,7 @@ func c16RunCase(c c16Case) (res c16Result) {
 		c16GroundTruth(&res, t, o1)
 		res.CleanImports = len(r1.Errors) == 0 && len(o1.Errors) == 0 && r1.StartErr == "" && o1.StartErr == ""
 		c16CleanRunErrors(&res, t, o1, "one-shot import of a healthy tracker into an empty repository")
-		c16SameCompiled(&res, t, "incremental-vs-one-shot", "incremental import (base, growth) vs one-shot import into an empty repository", r4, o1)
+		c16SameCompiled(&res, t, "incremental-vs-one-shot", "incremental import (base, growth) vs one-shot import into an empty repository", r4, o1, nil)
 
 		ops := 0
 		for _, b := range r6.Dump.Bugs {
@@ -1241,11 +1430,22 @@ func c16RunCase(c c16Case) (res c16Result) {
 			if B != nil {
 				B.round("b0:first-import(reference)", false, nil)
 			}
+			// "the last successful import happened in 2021": between the two generations; on a burst
+			// tracker (one time line): at the tracker's time before it grew
+			cur := c16Sentinel
+			if c.Params.Burst {
+				cur = c16TrackerCursor(t, c.Params)
+			}
 			t.Grow(growRng, c.Params)
-			// "the last successful import happened in 2021": between the two generations
-			if err := A.plantCursor(c16Sentinel); err != nil {
+			if err := A.plantCursor(cur); err != nil {
 				res.Inconclusive = "cannot plant the cursor: " + err.Error()
 				return
+			}
+			if B != nil && c.Params.Burst {
+				if err := B.plantCursor(cur); err != nil {
+					res.Inconclusive = "cannot plant the cursor: " + err.Error()
+					return
+				}
 			}
 		}
 		// the never-failed counterpart: taken from the base case, or computed here
@@ -1294,7 +1494,7 @@ func c16RunCase(c c16Case) (res c16Result) {
 		if advanced && len(faulted.Errors) == 0 {
 			res.count("cursor_rule_checks", 1)
 			tmp := c16Result{Counters: map[string]int{}, Sets: map[string][]string{}}
-			if !c16SameCompiled(&tmp, t, "x", "x", faulted, ref) {
+			if !c16SameCompiled(&tmp, t, "x", "x", faulted, ref, nil) {
 				lost = true
 				res.find("cursor-advanced-after-failed-request:"+cls,
 					"%s on %q: the run relayed no error event and moved %s from %q to %q, but the repository lacks what the failed request would have delivered: %d bugs vs %d in a never-failed import; first difference: %s",
@@ -1316,18 +1516,120 @@ func c16RunCase(c c16Case) (res c16Result) {
 		if lost {
 			// consequence of the cursor defect, reported under the cursor key only
 			tmp := c16Result{Counters: map[string]int{}, Sets: map[string][]string{}}
-			if !c16SameCompiled(&tmp, t, "x", "x", clean, ref) {
+			if !c16SameCompiled(&tmp, t, "x", "x", clean, ref, nil) {
 				res.count("data_still_missing_after_the_next_clean_run", 1)
 				res.trace("after the cursor advanced past the failed request the clean run ended with %d bugs, the never-failed import with %d", len(clean.Dump.Bugs), len(ref.Dump.Bugs)+len(ref.Ref))
 			}
 		} else {
-			c16SameCompiled(&res, t, "resume-differs:"+cls, fmt.Sprintf("run with %s on %q, then a clean run, vs an import that never failed", c.Fault.Mode, c.Fault.Identity), clean, ref)
+			// what the failed run left: per issue the second of the last operation stored
+			left := map[string]int64{}
+			for _, b := range faulted.Dump.Bugs {
+				if len(b.Ops) > 0 {
+					left[b.IID] = b.Ops[len(b.Ops)-1].Unix
+				}
+			}
+			for _, b := range clean.Dump.Bugs {
+				last, ok := left[b.IID]
+				for _, f := range faulted.Dump.Bugs {
+					if ok && f.Id == b.Id && len(b.Ops) > len(f.Ops) {
+						res.count("bugs_completed_by_the_clean_run", 1)
+						for _, o := range b.Ops[len(f.Ops):] {
+							if o.Unix == last {
+								res.count("resumed_ops_within_the_second_of_the_last_stored_operation", 1)
+							}
+						}
+					}
+				}
+			}
+			// timestamp class: the failed run left the issue incomplete, and what it stored ends in
+			// the second of the issue's last update
+			incomplete := map[string]bool{}
+			fc, rc := c16CompiledByIID(faulted), c16CompiledByIID(ref)
+			for iid, x := range rc {
+				if y, ok := fc[iid]; ok && mon.JSON(x) != mon.JSON(y) {
+					incomplete[iid] = true
+				}
+			}
+			cause := func(iid string) string {
+				for _, is := range t.Issues {
+					if last, ok := left[iid]; ok && incomplete[iid] && strconv.Itoa(is.IID) == iid && is.UpdatedAt.Unix() <= last {
+						return c16RestSameSecond
+					}
+				}
+				return ""
+			}
+			c16SameCompiled(&res, t, "resume-differs:"+cls, fmt.Sprintf("run with %s on %q, then a clean run, vs an import that never failed", c.Fault.Mode, c.Fault.Identity), clean, ref, cause)
 		}
 		page := c.Fault.Identity[strings.LastIndex(c.Fault.Identity, " ")+1:]
 		res.Shape = fmt.Sprintf("fault/%s/%s/%s/%s/%s%s", c.Round, c.Fault.Mode, cls, page, outcome, flavour)
 		res.Nontrivial = true
 	}
 	return
+}
+
+// c16ListedAtCursor counts the issues whose updated_at equals the cursor of the round exactly and
+// whose notes the importer listed in that round (updated_after is inclusive).
+func c16ListedAtCursor(res *c16Result, t *gitlabsim.Tracker, rd c16Round, cursor time.Time) {
+	for _, is := range t.Issues {
+		if !is.UpdatedAt.Equal(cursor) {
+			continue
+		}
+		res.count("issues_with_updated_at_equal_to_the_cursor", 1)
+		want := fmt.Sprintf("GET /projects/%d/issues/%d/notes p1", t.ProjectID, is.IID)
+		for _, id := range rd.Log.Identities {
+			if id == want {
+				res.count("issues_with_updated_at_equal_to_the_cursor_listed", 1)
+			}
+		}
+	}
+}
+
+// c16LocalTargets picks the bugs the local user works on after the growth generation (generation
+// 1): of the issues imported before, the first that grew only within the second of its last
+// imported event, the first that got later events, the first that did not move.
+func c16LocalTargets(t *gitlabsim.Tracker) []string {
+	final := map[int]bool{}
+	for _, iid := range t.FinalBurst {
+		final[iid] = true
+	}
+	var same, later, still string
+	for _, is := range t.Issues {
+		if is.Gen != 0 {
+			continue
+		}
+		grew := false
+		for _, n := range is.Notes {
+			grew = grew || n.Gen == 1 || n.EditGen == 1
+		}
+		for _, e := range is.LabelEvents {
+			grew = grew || e.Gen == 1
+		}
+		for _, e := range is.StateEvents {
+			grew = grew || e.Gen == 1
+		}
+		iid := strconv.Itoa(is.IID)
+		switch {
+		case grew && final[is.IID]:
+			if same == "" {
+				same = iid
+			}
+		case grew:
+			if later == "" {
+				later = iid
+			}
+		default:
+			if still == "" {
+				still = iid
+			}
+		}
+	}
+	var out []string
+	for _, iid := range []string{same, later, still} {
+		if iid != "" {
+			out = append(out, iid)
+		}
+	}
+	return out
 }
 
 // c16AnyCollision: tracker-level attribution for findings that are not tied to one issue.
@@ -1348,7 +1650,7 @@ func c16Params(seed int64, i int, thorough bool) gitlabsim.Params {
 		Issues: 1 + rng.Intn(8), MaxActions: 4 + rng.Intn(9), PerPage: 20,
 		GrowIssues: rng.Intn(3), GrowTouch: 1 + rng.Intn(3), GrowAct: 2 + rng.Intn(5),
 	}
-	switch i % 6 {
+	switch i % 8 {
 	case 0: // the one-issue tracker of the design probe, default page size
 		p.Issues = 1
 		p.MaxActions = 12
@@ -1368,6 +1670,19 @@ func c16Params(seed int64, i int, thorough bool) gitlabsim.Params {
 	case 5: // fresh self-hosted instance: every id sequence starts at 1
 		p.SmallIDs = true
 		p.Issues = 2 + rng.Intn(4)
+	case 6: // same-second histories on one time line; the importer's clock 0..4 s ahead of the tracker's
+		p.Burst = true
+		p.Issues = 3 + rng.Intn(3)
+		p.MaxActions = 3 + rng.Intn(4)
+		p.CursorSkew = rng.Intn(5)
+		p.GrowTouch = 1 + rng.Intn(2)
+	case 7: // the same, and the cursor falls exactly on the timestamp of the last imported event
+		p.Burst = true
+		p.CursorTie = true
+		p.CursorSkew = 5
+		p.Issues = 2 + rng.Intn(3)
+		p.MaxActions = 3 + rng.Intn(4)
+		p.PerPage = 4
 	}
 	return p
 }
@@ -1389,25 +1704,18 @@ func runC16(tier, replay string) int {
 		}
 		cases = []c16Case{rep.Case}
 	} else {
-		n := r.Pick(6, 200)
+		n := r.Pick(8, 200)
 		for i := 0; i < n; i++ {
 			cases = append(cases, c16Case{Kind: "base", Seed: r.Seed, Tracker: i, Params: c16Params(r.Seed, i, r.Thorough())})
 		}
 	}
 	perCase := 120 * time.Second
 	base := runBatches[c16Case, c16Result]("", "c16", cases, r.Pick(1, 4), perCase, nil)
-	c16Absorb(r, cases, base, replay != "")
+	sum := map[string]int{}
+	c16Absorb(r, cases, base, replay != "", sum)
 	if replay == "" {
 		// the targeted input classes must have been observed (the generator plans them; a run
 		// that did not see them has not judged them)
-		sum := map[string]int{}
-		for _, oc := range base {
-			if oc.Result != nil {
-				for k, v := range oc.Result.Counters {
-					sum[k] += v
-				}
-			}
-		}
 		for _, k := range []string{
 			"tracker_base/issues-emptied-of-labels-before-their-first-import",
 			"tracker_growth/issues-emptied-of-labels-before-their-first-import",
@@ -1415,6 +1723,14 @@ func runC16(tier, replay string) int {
 			"label_events_compared_with_operations",
 			"only_c1_control_texts/title", "only_c1_control_texts/description", "only_c1_control_texts/comment",
 			"only_c1_control_texts/title-change-note", "only_c1_control_texts/label-name",
+			// timestamp granularity: events within one second, growth within the second of the last
+			// imported event, a cursor that equals an issue's updated_at, local operations
+			"tracker_base/same-second-bursts", "tracker_base/burst-events-by-not-yet-known-users",
+			"tracker_growth/issues-grown-within-the-second-of-their-last-imported-event",
+			"tracker_growth/events-with-the-timestamp-of-the-last-imported-event",
+			"new_ops_within_the_second_of_the_last_imported_operation",
+			"issues_with_updated_at_equal_to_the_cursor_listed",
+			"local_operations_added_between_rounds", "bugs_with_local_operations_and_new_tracker_events",
 		} {
 			if sum[k] == 0 && !(k == "tracker_growth/issues-emptied-of-labels-before-their-first-import" && !r.Thorough()) {
 				r.Inconclusive("input class not observed in any base case: " + k)
@@ -1425,7 +1741,7 @@ func runC16(tier, replay string) int {
 	// phase 2: fault enumeration over the request identities the dry runs recorded
 	var fcases []c16Case
 	if replay == "" {
-		nEnum := r.Pick(2, 40)
+		nEnum := r.Pick(4, 40)
 		// Fault enumeration needs trackers whose fault-free import is error-free (otherwise
 		// "a subsequent clean run" does not exist). Candidates in a fixed preference order
 		// (quick: the paginated flavours first); the first nEnum with an error-free dry run are used.
@@ -1435,7 +1751,7 @@ func runC16(tier, replay string) int {
 				cand = append(cand, i)
 			}
 		} else {
-			cand = []int{1, 4, 3, 0, 2, 5}
+			cand = []int{6, 7, 1, 4, 3, 0, 2, 5}
 		}
 		var pick []int
 		for _, ti := range cand {
@@ -1464,8 +1780,11 @@ func runC16(tier, replay string) int {
 					cls := gitlabsim.EndpointClass(id)
 					mk(id, "403", 1, true)
 					if !r.Thorough() {
-						mk(id, "404", 1, true)
-						// quick: one dropped connection and one truncated body per endpoint class
+						// quick: one dropped connection and one truncated body per endpoint class; 404 on
+						// every identity (on the burst trackers, which have many user requests: one per class)
+						if !cases[ti].Params.Burst || !classDone[cls] {
+							mk(id, "404", 1, true)
+						}
 						if !classDone[cls] {
 							classDone[cls] = true
 							mk(id, "drop", 0, true)
@@ -1508,23 +1827,30 @@ func runC16(tier, replay string) int {
 				}
 			}
 			fres := runBatches[c16Case, c16Result]("", "c16", part, r.Pick(6, 8), perCase, nil)
-			c16Absorb(r, part, fres, false)
+			c16Absorb(r, part, fres, false, sum)
+		}
+		if sum["resumed_ops_within_the_second_of_the_last_stored_operation"] == 0 {
+			r.Inconclusive("input class not observed in any fault case: a failed run that left a prefix ending in the second of the events still missing")
 		}
 	}
 	r.Extra("not_driven", "the GitHub importer (needs a GraphQL simulation) and the Jira/Launchpad importers are not driven; the property's quantifier is over a simulated GitLab API")
-	r.Extra("time_model", "tracker timestamps: base generation 2020, growth generation 2100; importer cursors (wall clock) always fall in between; faulted runs start from a planted 2021 cursor; the oracle compares cursors for equality only")
+	r.Extra("time_model", "tracker timestamps: base generation 2020, growth generation 2100; importer cursors (wall clock) always fall in between; faulted runs start from a planted 2021 cursor; the oracle compares cursors for equality only. Burst trackers (same-second histories) stay on one time line in 2020: before every round that goes by the cursor the monitor plants the cursor the bridge computes (start of the run minus 5 s, whole seconds) for a run at the tracker's present time, with the importer's clock 0..5 s ahead of the tracker's; local operations carry the tracker's time")
 	r.Extra("fault_modes", "403 and 404 once (enumerated over every request identity of the first import and of the import after growth), dropped connection and truncated body (quick: one per endpoint class, thorough: rotated over all identities), 500 once (healed by go-gitlab's retry) and persistent 500 (sampled)")
 
-	rule := "base cases: generated trackers (1..8 issues; comments, edits, title/description changes, label and state events, old-style state notes, ignored system notes, Ghost user, hostile text incl. one-line texts with only C1 control characters; planned label histories: all labels removed again before the first import of the issue, the only label removed between two rounds) imported in 6 rounds (import, re-import by cursor, re-import from zero, growth, import, re-import x2) plus a one-shot import; fault cases: one (round, request identity, failure mode) each, followed by a clean run and compared with a never-failed import. non-trivial = base case that imported operations beyond the creations, or fault case whose fault was actually hit; distinct = distinct shape signature (base: sizes, page size, id flavour, pages, #identities, event-kind set; fault: round/mode/endpoint class/page/outcome)"
+	rule := "base cases: generated trackers (1..8 issues; comments, edits, title/description changes, label and state events, old-style state notes, ignored system notes, Ghost user, hostile text incl. one-line texts with only C1 control characters; bursts of events within one second, some tens of milliseconds apart, by known and not yet known users, by chance everywhere and planned on the burst trackers: every issue ends with one, the base generation ends within one second, the growth continues in that very second, with the cursor 0..5 s before it or exactly on the issue's updated_at, and a local user adds operations to imported bugs before the next round; planned label histories: all labels removed again before the first import of the issue, the only label removed between two rounds) imported in 6 rounds (import, re-import by cursor, re-import from zero, growth, import, re-import x2) plus a one-shot import; fault cases: one (round, request identity, failure mode) each, followed by a clean run and compared with a never-failed import. non-trivial = base case that imported operations beyond the creations, or fault case whose fault was actually hit; distinct = distinct shape signature (base: sizes, page size, id flavour, pages, #identities, event-kind set; fault: round/mode/endpoint class/page/outcome)"
 	return r.Finish(rule, r.Pick(20, 60), []string{
-		"gitlabsim reproduces the GitLab v4 wire format as consumed by go-gitlab v0.107.0 (fields, separate id sequences per table, offset pagination headers, updated_after inclusive)",
+		"gitlabsim reproduces the GitLab v4 wire format as consumed by go-gitlab v0.107.0 (fields, separate id sequences per table, offset pagination headers)",
+		"updated_after follows GitLab's documented semantics ('Return issues updated on or after the given time'): an issue whose updated_at equals the cursor exactly is listed; timestamps have millisecond precision on the wire and an issue's updated_at is the time of its last note, label event or state event",
+		"events within one second are some tens of milliseconds apart, so their order is known to a client; identical timestamps only between events whose relative order does not change the compiled bug (comments, label events, ignored system notes)",
+		"on the burst trackers the monitor plants the cursor: the value core.Bridge computes (start of the run minus 5 s, in whole seconds) for an error-free run at the tracker's present time, the importer's clock being 0..5 s ahead of the tracker's; every event of the growth generation is not earlier than that run",
+		"operations of a local user (own identity without gitlab-id, a comment and a label no tracker uses) are not the importer's business: they are left out of the compared operation lists and compiled bugs",
 		"every label event GitLab lists for an issue corresponds to exactly one label operation (GitLab's resource_label_events is the full history, whatever labels the issue carries now)",
 		"text is compared with the tracker after removing control (Cc), format (Cf) and white-space characters on both sides, so any sanitising of those is accepted",
 		"a 5xx answered correctly on the client library's retry is not a failed request",
 	})
 }
 
-func c16Absorb(r *mon.Run, cases []c16Case, outs []Outcome[c16Result], verbose bool) {
+func c16Absorb(r *mon.Run, cases []c16Case, outs []Outcome[c16Result], verbose bool, sum map[string]int) {
 	for i, oc := range outs {
 		c := cases[i]
 		label := fmt.Sprintf("%s tracker=%d", c.Kind, c.Tracker)
@@ -1554,6 +1880,7 @@ func c16Absorb(r *mon.Run, cases []c16Case, outs []Outcome[c16Result], verbose b
 		r.Case(res.Shape, res.Nontrivial)
 		for k, v := range res.Counters {
 			r.Count(k, v)
+			sum[k] += v
 		}
 		for set, ms := range res.Sets {
 			for _, m := range ms {
